@@ -241,6 +241,29 @@ def run(ctx):
     for k, vals in d_kw.items():
         if any(v != 'None' for v in vals):
             ctx.violation('R2', f'PragmaDetacher:{k}-reset', PD.where, f'detacher sets {k} to {vals}, expected None')
+    # flag discipline: pragma_post is touched only under the *_pragma_post flag (attach and detach must mirror each other:
+    # the context manager passes detach_pragma_post=attach_pragma_post)
+    for V, flag in ((PA, 'self.attach_pragma_post'), (PD, 'self.detach_pragma_post')):
+        f = V.function('visit_tuple')
+        sites = X.nodes_with_guards(f.node, lambda n: isinstance(n, ast.Call) and isinstance(n.func, ast.Attribute)
+                                    and n.func.attr == '_update' and any(k.arg == 'pragma_post' for k in n.keywords))
+        if not sites:
+            raise AnalysisError(f'{V.name}.visit_tuple: no _update(pragma_post=...) site')
+        for call, guards in sites:
+            inst = f'{V.name}.visit_tuple:pragma_post@{len([1 for x in ctx.instances if x[1].startswith(V.name + ".visit_tuple:pragma_post")])}'
+            if any(flag in g and not g.startswith('not (') for g in guards):
+                ctx.judge('R2', inst, facts={'guards': guards})
+            else:
+                ctx.violation('R2', f'{V.name}.visit_tuple:pragma_post-flag', f'{V.module.relpath}:{call.lineno}',
+                              f'`{ast.unparse(call)}` is not guarded by {flag} (guards: {guards}): pragmas attached as pragma_post with '
+                              f'the flag off are never detached again by the mirrored detach call')
+        sites = X.nodes_with_guards(f.node, lambda n: isinstance(n, ast.Call) and isinstance(n.func, ast.Attribute)
+                                    and n.func.attr == '_update' and any(k.arg == 'pragma' for k in n.keywords))
+        for call, guards in sites:
+            ok = any('isinstance(i, self.node_type)' in g and not g.startswith('not (') for g in guards)
+            (ctx.judge('R2', f'{V.name}.visit_tuple:pragma-type-guard', facts={'guards': guards}) if ok else
+             ctx.violation('R2', f'{V.name}.visit_tuple:pragma-type-guard', f'{V.module.relpath}:{call.lineno}',
+                           f'`{ast.unparse(call)}` is not restricted to nodes of the requested node_type'))
     # re-insertion order in PragmaDetacher.visit_tuple
     vt = PD.function('visit_tuple')
     loop = next((n for n in ast.walk(vt.node) if isinstance(n, ast.For)), None)
@@ -387,6 +410,9 @@ MUTANTS = [
            "            if isinstance(i, self.node_type) and getattr(i, 'pragma', None):\n                # Pragmas need to go before the node\n                updated += as_tuple(i.pragma)\n                # Modify the node in-place to leave existing references intact\n                i._update(pragma=None)\n            # Insert node into the tuple\n            updated += (i,)\n",
            "            updated += (i,)\n            if isinstance(i, self.node_type) and getattr(i, 'pragma', None):\n                updated += as_tuple(i.pragma)\n                i._update(pragma=None)\n",
            expect=('R2', 'PragmaDetacher.visit_tuple:order')),
+    Mutant('post-attach-ignores-flag', PU,
+           "                          self.attach_pragma_post and updated and\n                          isinstance(updated[-1], self.node_type) and",
+           "                          updated and isinstance(updated[-1], self.node_type) and", expect=('R2', 'pragma_post-flag')),
     Mutant('attacher-rebuilds', PU,
            "                        i._update(pragma=as_tuple(pragmas))",
            "                        i = i.clone(pragma=as_tuple(pragmas))", expect=('R2', 'rebuild')),
